@@ -83,8 +83,12 @@ def _remove_wire_nets(block, skip_sanity_check=False):
 
     # one pass to build the map of value producers and
     # all of the nets and wires to be removed
+    def is_removable(net):
+        # a 'w' net whose destination is narrower than its source truncates: keep it
+        return net.op == 'w' and len(net.dests[0]) == len(net.args[0])
+
     for net in block.logic:
-        if net.op == 'w':
+        if is_removable(net):
             wire_src_dict[net.dests[0]] = net.args[0]
             if not isinstance(net.dests[0], Output):
                 wire_removal_set.add(net.dests[0])
@@ -92,7 +96,7 @@ def _remove_wire_nets(block, skip_sanity_check=False):
     # second full pass to create the new logic without the wire nets
     new_logic = set()
     for net in block.logic:
-        if net.op != 'w' or isinstance(net.dests[0], Output):
+        if not is_removable(net) or isinstance(net.dests[0], Output):
             new_args = tuple(wire_src_dict.find_producer(x) for x in net.args)
             new_net = LogicNet(net.op, net.op_param, new_args, net.dests)
             new_logic.add(new_net)
